@@ -141,7 +141,16 @@ func runCatalog(id string, toks []string) (res string) {
 					}
 					svcs = append(svcs, s.Type+"["+strings.Join(ts, ",")+"]")
 				}
-				out = append(out, fmt.Sprintf("%s.%d:%d:%d:%s", name, vi, len(a.Services), n, strings.Join(svcs, "/")))
+				// readable numeric values with their declared range: <charType>=<value>/<min>/<max>
+				var vals []string
+				for _, s := range a.Services {
+					for _, c := range s.Characteristics {
+						if c.MinValue != nil || c.MaxValue != nil {
+							vals = append(vals, fmt.Sprintf("%s=%s/%s/%s", c.Type, numText(c.Value), numText(c.MinValue), numText(c.MaxValue)))
+						}
+					}
+				}
+				out = append(out, fmt.Sprintf("%s.%d:%d:%d:%s:%s", name, vi, len(a.Services), n, strings.Join(svcs, "/"), strings.Join(vals, ",")))
 			}
 			add("New", accessory.New(info, accessory.TypeOther))
 			add("Bridge", accessory.NewBridge(info).Accessory)
@@ -154,6 +163,12 @@ func runCatalog(id string, toks []string) (res string) {
 			add("TemperatureSensor", accessory.NewTemperatureSensor(info, 20, 0, 40, 1).Accessory)
 			add("Thermostat", accessory.NewThermostat(info, 20, 10, 30, 1).Accessory)
 			add("Window", accessory.NewWindow(info, 0).Accessory)
+			// the parameterised constructors with other (valid) arguments: temperature, minimum, maximum, step
+			for _, q := range [][4]float64{{5, 0, 8, 1}, {-5, -20, 40, 1}, {100, 50, 150, 0.5}, {10, 10, 10.5, 0.5}, {37.5, 35, 42, 0.1}} {
+				tag := fmt.Sprintf("@%g,%g,%g", q[0], q[1], q[2])
+				add("TemperatureSensor"+tag, accessory.NewTemperatureSensor(info, q[0], q[1], q[2], q[3]).Accessory)
+				add("Thermostat"+tag, accessory.NewThermostat(info, q[0], q[1], q[2], q[3]).Accessory)
+			}
 		}
 		sort.Strings(out)
 		return strings.Join(out, " ")
